@@ -14,8 +14,9 @@
 // (sort.*, slices.Sort*, a method named Sort, or a function of these packages that passes that
 // parameter to a sort — computed as a fixpoint) is reached before any output call.
 //
-// Records carry types and callee names only — no local variable names, no line numbers — so that
-// renaming locals or moving code does not change them.  The hand-reviewed expectation lives in
+// Compared records carry the file, the function, the map type, the sink, `sorted` and `returned`
+// only — no local variable names, no line numbers, no callee names (those go into a comment) — so
+// that renaming locals, moving code or sorting with another routine does not change them.  The hand-reviewed expectation lives in
 // lean/PprofVerif/Spec/MapRangesExpected.lean; Props/C08.lean compares the two lists by `decide`.
 package main
 
@@ -573,13 +574,19 @@ func genMapRanges(e *Env) (string, error) {
 		if i == len(sites)-1 {
 			sep = ""
 		}
-		var fl []string
+		returned := false
 		for _, f := range s.flows {
-			fl = append(fl, leanStr(f))
+			if f == "return" {
+				returned = true
+			}
 		}
-		fmt.Fprintf(&b, "  -- line %d: range %s\n", s.line, strings.Join(strings.Fields(s.over), " "))
-		fmt.Fprintf(&b, "  { file := %s, fn := %s, mapType := %s, sink := %s, sorted := %v, flows := [%s] }%s\n",
-			leanStr(s.file), leanStr(s.fn), leanStr(s.mapType), leanStr(s.sink), s.sorted, strings.Join(fl, ", "), sep)
+		fmt.Fprintf(&b, "  -- line %d: range %s   then: %s\n", s.line, strings.Join(strings.Fields(s.over), " "), strings.Join(s.flows, ", "))
+		kind := s.sink
+		if i := strings.IndexByte(kind, ':'); i >= 0 {
+			kind = kind[:i]
+		}
+		fmt.Fprintf(&b, "  { file := %s, fn := %s, mapType := %s, kind := .%s, sink := %s, sorted := %v, returned := %v }%s\n",
+			leanStr(s.file), leanStr(s.fn), leanStr(s.mapType), kind, leanStr(s.sink), s.sorted, returned, sep)
 	}
 	b.WriteString("]\n\nend PV.Gen.MapRanges\n")
 	return b.String(), nil
